@@ -30,6 +30,7 @@ def run(ctx):
     fx = ctx.load("src", "drv_foreach", "wlcompile")
     bulk(ctx, fx)
     obim(ctx, fx)
+    obim_master_log(ctx, fx)
     executor(ctx, fx)
 
 
@@ -410,6 +411,42 @@ def obim(ctx, fx):
                 det.append("returns %s" % sorted(rets))
         ctx.ob("C08.obim.empty-agreement", OBIM + "::empty", not det, "; ".join(sorted(set(det))), fn.loc(), "empty",
                fnkey=f["key"])
+
+
+def obim_master_log(ctx, fx):
+    ctx.rule("C08.obim.replay-under-master-lock",
+             "OBIM / AdaptiveOBIM slowUpdateLocalOrCreate: a thread's private priority -> bucket map is a replay of the shared "
+             "master log up to lastMasterVersion. Between the last unlocked replay and the successful masterLock.try_lock() "
+             "another thread can append a bucket, so after the lock is taken the log is replayed again (updateLocal) before "
+             "the map is searched, a bucket is created or lastMasterVersion is advanced: no path leads from an evaluation of "
+             "try_lock() to the look-up, the creation or the version store without passing updateLocal. Otherwise the version "
+             "store jumps over the other thread's entry for good, a duplicate bucket is created and the items in the first "
+             "one are never scheduled")
+    fs = insts(fx, OBIM + "::slowUpdateLocalOrCreate") + insts(fx, W + "AdaptiveOrderedByIntegerMetric::slowUpdateLocalOrCreate")
+    ctx.floor("slowUpdateLocalOrCreate instantiations", len(fs), 2)
+    for f in fs:
+        fn = ctx.fn(f)
+        det = []
+        tl = [p for p, e in fn.events(lambda e: e.get("k") == "call" and e.get("name") == "try_lock" and "masterLock" in S(e.get("recv") or {}))]
+        upd = is_call(name="updateLocal")
+        ver = lambda e: e.get("k") == "assign" and (e.get("lp") or "").endswith("lastMasterVersion")
+        create = lambda e: e.get("k") == "new" or (e.get("k") == "call" and e.get("name") == "push_back" and "masterLog" in S(e.get("recv") or {}))
+        if not tl:
+            det.append("no masterLock.try_lock()")
+        if not any(True for _ in fn.events(ver)) or not any(True for _ in fn.events(create)):
+            det.append("version store / bucket creation not found")
+        for p in tl:
+            for what, tgt in (("lastMasterVersion is advanced", ver), ("a bucket is created / logged", create)):
+                if fn.reaches_without(tgt, upd, starts=[fn.after(p)]):
+                    det.append("%s after masterLock.try_lock() (line %s) without replaying the master log under the lock: an "
+                               "entry appended by another thread in between is skipped for good" % (what, fn.ev(p).get("l")))
+        # everything that touches the log / version happens before the unlock
+        ul = [p for p, e in fn.events(lambda e: e.get("k") == "call" and e.get("name") == "unlock" and "masterLock" in S(e.get("recv") or {}))]
+        for p in ul:
+            h, _ = fn.search([fn.after(p)], stop=lambda e: ver(e) or create(e))
+            if h:
+                det.append("master log / version written after masterLock.unlock()")
+        ctx.ob("C08.obim.replay-under-master-lock", f["qn"], not det, "; ".join(sorted(set(det))[:3]), fn.loc(), "replay", fnkey=f["key"])
 
 
 def executor(ctx, fx):
